@@ -21,7 +21,8 @@ EXPLANATION = (
     " The rule cache stores the callback's result vector untouched (positions are rule ids); no default argument of the readers evaluates the language at import time."
     ' Fourth round: when binary nodes are built through a shared helper that takes the head direction as a parameter, the helper is read in place at every reader routine calling it (a constant head direction is reported).'
     ' Fifth round: ids and positions carried by items are full-width integers; label recovery is total over any three categories; the rule cache never shrinks.'
-    " Sixth and seventh round: R12.5 -- the language selection is one setting of the process, Tree's own pickling carries every field, the rule cache is a local of run(); the XML readers keep the order of the children (R12.3).")
+    " Sixth and seventh round: R12.5 -- the language selection is one setting of the process, Tree's own pickling carries every field, the rule cache is a local of run(); the XML readers keep the order of the children (R12.3)."
+    ' Eighth round: the label recovery always asks the grammar (R12.4); the readers use the rule table of the selected language (R12.3).')
 TRUSTED = ['clang-14 front end', 'CPython ast', 'sa/pyx.py normaliser', 'rule table DESIGN.md C12']
 
 READER_FILES = ['depccg/tree.py', 'depccg/tools/reader.py']
